@@ -178,7 +178,7 @@ func startGRPC(t *testing.T) *grpcHarness {
 	grpcOnce.Do(func() {
 		h := &grpcHarness{scripts: map[string]callScript{}, records: map[string]*callRecord{}}
 		for i := 0; i < 3; i++ {
-			ln, err := net.Listen("tcp", "127.0.0.1:0")
+			ln, err := hx.Listen("tcp", "127.0.0.1:0")
 			if err != nil {
 				panic(err)
 			}
@@ -197,7 +197,7 @@ func startGRPC(t *testing.T) *grpcHarness {
 		dp := metrics.DiscardProvider{}
 		sh := &proxy.GrpcStatsHandler{Connect: dp.NewCounter("c"), Request: dp.NewHistogram("r"), NoRoute: dp.NewCounter("n"), Status: dp.NewHistogram("s", "code")}
 		srv := grpc.NewServer(newGrpcProxy(cfg, nil, sh)...)
-		h.proxyLn, err = net.Listen("tcp", "127.0.0.1:0")
+		h.proxyLn, err = hx.Listen("tcp", "127.0.0.1:0")
 		if err != nil {
 			panic(err)
 		}
